@@ -71,7 +71,7 @@ struct Op {
   Op() {}
   explicit Op(const std::string &kind) : k(kind) {}
   Op &I(long v) { i.push_back(v); return *this; }
-  Op &N(const Q &v) { q.push_back(v); return *this; }
+  Op &N(const Q &v) { q.push_back(v); q.back().canonicalize(); return *this; }
   Op &S(const std::string &v) { s.push_back(v); return *this; }
   std::string str() const;                 // one line
 };
